@@ -392,6 +392,16 @@ def oracle_C08(inp):
             return True, "not one line per error"
     except Exception as e:
         return True, f"validate_or_fail raised {e!r}"
+    # ... and with a validator the user configured (own zero-argument result factory, own root path)
+    from d42.validation import ValidationResult as _VR, Validator as _V
+    from th import PathHolder as _PH
+    try:
+        vis = _V(validation_result_factory=lambda: _VR(), path_holder_factory=lambda: _PH()["body"])
+        r2 = S.__accept__(vis, value=v)
+        if len(r2.get_errors()) != len(r.get_errors()):
+            return True, f"a Validator with its own factories reports {len(r2.get_errors())} errors, the default one {len(r.get_errors())}; S={_sr(S)} v={_sr(v)}"
+    except Exception as e:
+        return True, f"validation with Validator(validation_result_factory=lambda: ValidationResult(), path_holder_factory=...) raised {e!r}; S={_sr(S)} v={_sr(v)}"
     return False, f"total; S={_sr(S)} v={_sr(v)}"
 
 
@@ -1229,6 +1239,28 @@ def oracle_C06(inp, meta=None):
     from uuid import UUID                      # names the printed text may use
     from datetime import datetime, date        # noqa: F401
     import datetime as datetime_mod            # noqa: F401
+    if "history" in inp:
+        # the printed form is a function of the declaration: reusing the list / dict it was declared from must not change it
+        kind = inp["history"].get("v")
+        if kind == "list":
+            arg = [schema.int, schema.str]
+            S0 = schema.list(arg).len(2)
+            t0 = repr(S0)
+            arg.append(schema.none)
+            arg.insert(0, ...)
+        else:
+            arg = {"a": schema.int, optional("b"): schema.str}
+            S0 = schema.dict(arg)
+            t0 = repr(S0)
+            arg["c"] = schema.none
+            del arg["a"]
+        try:
+            t1 = repr(S0)
+        except Exception as e:
+            return True, f"after the {kind} a schema was declared from is reused, printing the schema raises {e!r} (it printed {t0!r} before)"
+        if t1 != t0:
+            return True, f"the printed form of a schema changes when the {kind} it was declared from is reused: {t0!r} -> {t1!r}"
+        return False, "the printed form does not depend on later changes of the declaration's argument"
     S_ = build(inp["schema"])
     text = repr(S_)
     if text != represent(S_) or text != repr(S_):
